@@ -121,7 +121,7 @@ theorem num_not_list (xs : List Sx) (h : xs.all isNum = true) : xs.any isList = 
 
 /-- `(+ n₁ … nₖ)` on numeric literals ⇒ their sum (`sum` starts from the integer 0): same value and type -/
 theorem add_rule_num (rec : St → Sx → Res) (hl : LitSelf rec) (st : St) (args : List Sx) (v : Sx)
-    (hn : args.all isNum = true) (hv : numFold? .add (.int 0) args = some v) :
+    (hn : args.all isNum = true) (hv : pySum? args = some v) :
     opAdd rec st args = .ok (v, st) := by
   obtain ⟨h1, h2⟩ := num_not_list args hn
   simp [opAdd, evalList_lits rec hl st args (num_is_lit args hn), bind, Except.bind, h1, h2, hn, hv, pure, Except.pure]
